@@ -90,6 +90,12 @@ add("C06", "other",
     "contract-based deductive verification of the hash constructions and wiring on the real code; bounded differential run against an independent reference implementation, labelled bounded",
     "DESIGN.md section 4 C06")
 
+add("C10", "proof",
+    "Contracts on the real binToMnemonic / mnemonicToBin and their four sized front ends plus four lemma functions (misc/zz_lemmas_verif.go): the encoder's phrase is the word list entries of the big-endian 12-bit groups joined by single blanks (any length divisible by 3); the decoder returns exactly the bytes whose 12-bit groups are the word indices, refuses (explicit panic) exactly when the word count is odd, some token is not a list word, or the size is not 48/51; dec(enc(b)) = b for every 48- and 51-byte string (hence injectivity) and enc(dec(p)) = p for every phrase the decoder accepts, all as discharged obligations; the 4096-word table is checked exhaustively (distinct, non-empty, lower-case, blank-free).",
+    "Strings are abstract (sort Str): fmt.Fprint/bytes.Buffer, strings.Split/Join and map semantics are assumed (T5, spec/20_strings.smt2). Spacing/case strictness is derived from the token-level refusal under those assumptions, not proved on bytes.",
+    "contract-based deductive verification with loop invariants over the 12-bit group view, lemma functions for the round trips, exhaustive table check of the word list",
+    "DESIGN.md section 4 C10")
+
 reasons = {}
 for p in ALL:
     if p not in checks:
